@@ -39,6 +39,13 @@ impl PeerIo for Stdio {
             let _ = self.stdout.flush().await;
         }
     }
+    async fn half_close(&mut self) {
+        let _ = self.stdout.flush().await;
+        // SAFETY: plain syscall; the process keeps running with its stdout closed
+        unsafe {
+            libc::close(1);
+        }
+    }
 }
 
 fn main() {
